@@ -230,8 +230,14 @@ impl UniverseNet {
         }
         // name servers that are themselves aliases into the zone they serve
         // (see the fault kind referral_glueless_alias_ns)
-        if let Some(k) = first.strip_prefix("gns").and_then(|s| s.parse::<u32>().ok()) {
-            let target = child_name(&format!("gt{k}"), &rest);
+        if let Some((k, zone_label)) = first.strip_prefix("gns").and_then(|s| {
+            let (k, l) = s.split_once('x')?;
+            Some((k.parse::<u32>().ok()?, l.to_string()))
+        }) {
+            // `gns3xa.ent.com.` is an alias for `gt3.a.ent.com.`: a name inside the
+            // zone `a.ent.com.` that it is said to serve, while the alias itself is
+            // learnt from the (correct) servers of the enclosing zone
+            let target = child_name(&format!("gt{k}"), &child_name(&zone_label, &rest));
             return Some(vec![rr(qname, &format!("CNAME {target}"), 300)]);
         }
         if rest_first == "stream" {
@@ -482,16 +488,25 @@ impl UniverseNet {
             "referral_glueless_alias_ns" => {
                 // a zone served by six glue-less name servers whose names are
                 // aliases into the zone itself: every address lookup leads back
-                // to the same name-server set
+                // to the same name-server set, through an alias
                 clear(&mut resp);
                 resp.header.is_authoritative = false;
                 let mut owner = qname.clone();
                 while labels(&owner) > current_depth + 1 {
                     owner = parent(&owner).unwrap_or_else(|| ".".into());
                 }
-                for k in 0..6 {
-                    resp.authority
-                        .push(rr(&owner, &format!("NS {}", child_name(&format!("gns{k}"), &owner)), 300));
+                // named beside the zone, not inside it, so that the enclosing
+                // zone's servers can be asked about them (and answer with the alias)
+                let up = parent(&owner).unwrap_or_else(|| ".".into());
+                let zone_label = owner.split('.').next().unwrap_or("").to_string();
+                if !zone_label.is_empty() && !zone_label.contains('x') {
+                    for k in 0..6 {
+                        resp.authority.push(rr(
+                            &owner,
+                            &format!("NS {}", child_name(&format!("gns{k}x{zone_label}"), &up)),
+                            300,
+                        ));
+                    }
                 }
             }
             "referral_unresolvable" | "referral_self" | "referral_deeper_fake" => {
